@@ -19,7 +19,7 @@ FOLLOW = ["S 0102 - A", "R 10 - D0a0b", "F -", "R 10 - Z", "S 01 - EEAGAIN", "R 
 def btcp_enumeration(ctx):
     """every errno x every first observer x every start state, then every follow-up call twice"""
     ops = []
-    for start in ("ready", "connecting", "resolving"):
+    for start in ("ready", "connecting", "resolving", "resolving-local", "resolving-local+remote"):
         for e in ERRS + ["ENOENT"]:
             observers = []
             if start == "ready":
@@ -29,9 +29,12 @@ def btcp_enumeration(ctx):
             else:
                 for call in ("S 0102 %s A", "R 10 %s D01", "F %s"):
                     observers.append(call % ("E" + e))
-                    if start == "resolving":
-                        observers.append(call % ("o,E" + e))        # tconnect_connect fails
-                        observers.append(call % ("o,o,E" + e))      # first attempt fails at get_connected_fd
+                    if start.startswith("resolving"):
+                        # one answer per pending query (the local name's first), then tconnect_connect, then get_connected_fd
+                        nq = 2 if start == "resolving-local+remote" else 1
+                        for j in range(1, nq + 2):
+                            observers.append(call % (",".join(["o"] * j + ["E" + e])))
+                        observers.append(call % ("o,a") if nq == 2 else call % ("a"))
                     observers.append(call % ("a"))
             for ob in observers:
                 for pre in ([], ["S 0a0b0c - P2", "R 4 - D01020304"] if start == "ready" else ["F a", "S 01 a A"]):
